@@ -40,6 +40,14 @@ const (
 	OpUnknown    Op = "unknown_type"
 	OpNoTS       Op = "no_timestamp"
 	OpTick       Op = "tick"
+	OpGarbage    Op = "garbage_frame"
+	OpText       Op = "text_frame"
+	OpBadTyped   Op = "bad_typed_frame"
+	OpBurstBad   Op = "burst_bad"
+	OpBurstPing  Op = "burst_ping"
+	OpSilence    Op = "silence"
+	OpStall      Op = "stall"
+	OpAbort      Op = "abort"
 )
 
 // Reference kinds: abstract arguments that are resolved against the reference
@@ -112,6 +120,7 @@ type Config struct {
 	FrameMs    int      `json:"frame_ms"`
 	ReceiptCap int      `json:"receipt_cap"`
 	Conns      int      `json:"conns"`
+	IdleMs     int      `json:"idle_ms,omitempty"` // client idle timeout (wire driver); 0 = one hour
 }
 
 type Script struct {
